@@ -818,7 +818,8 @@ void GridGlobal::setAnisotropicRefinement(TypeDepth type, int min_growth, int ou
     int level = 0;
     do{
         updateGrid(++level, type, weights, level_limits);
-    }while(getNumNeeded() < min_growth);
+    }while((getNumNeeded() < min_growth) &&
+           !MultiIndexManipulations::limitsSaturated(level_limits, [&](int l)->int{ return OneDimensionalMeta::getNumPoints(l, rule); }, getNumLoaded() + getNumNeeded()));
 }
 
 void GridGlobal::setSurplusRefinement(double tolerance, int output, const std::vector<int> &level_limits){
